@@ -133,4 +133,72 @@ theorem statText_noAddr (e : Option Err) : noAddr (statText e) = true := by
     | none => rfl
     | some r => exact generalize_noAddr false e r h
 
+
+/-! ### call sites -/
+
+theorem arg_ok_noClient (env : Env) (hok : env.Ok) (a : Arg) (h : a.ok = true) :
+    noClient (renderArg env a) = true := by
+  cases a with
+  | lit => rfl
+  | num => rfl
+  | genErr => exact noClient_of_noAddr _ (generalizedText_noAddr env.app env.err)
+  | rawErr o =>
+    simp only [Arg.ok, List.contains_iff_mem] at h
+    exact hok.raw_ok o h
+  | typeOf s => rfl
+  | expr s =>
+    simp only [Arg.ok] at h
+    cases hl : lookupRole s exprRoles with
+    | none => simp [hl] at h
+    | some r =>
+      apply hok.expr_ok s r hl
+      intro hr
+      subst hr
+      simp [hl] at h
+
+theorem args_ok_noClient (env : Env) (hok : env.Ok) (l : List Arg) (hl : ∀ a ∈ l, a.ok = true) :
+    noClient (l.flatMap (renderArg env)) = true := by
+  induction l with
+  | nil => rfl
+  | cons a l ih =>
+    rw [List.flatMap_cons, noClient_append, Bool.and_eq_true]
+    exact ⟨arg_ok_noClient env hok a (hl a (by simp)), ih (fun x hx => hl x (by simp [hx]))⟩
+
+/-- a site that passes the table check, is emitted and is not exempt renders no client address -/
+theorem site_ok_noClient (s : Site) (h : s.ok = true) (hem : s.level.emittedAtDefault = true)
+    (hex : exemptFormats.contains s.format = false) (env : Env) (hok : env.Ok) :
+    noClient (renderSite env s) = true := by
+  simp only [Site.ok, hem, hex, Bool.not_true, Bool.false_or, List.all_eq_true] at h
+  exact args_ok_noClient env hok s.args h
+
+theorem deadlineError_noClient (net : String) (local_ : Addr) (cause : Err)
+    (hl : local_.role ≠ .client) (hc : noClient cause.text = true) :
+    noClient (deadlineError net local_ cause).text = true := by
+  have hl' : (local_.role != Role.client) = true := by simpa using hl
+  simp only [deadlineError, Err.text, Option.isSome_none, Bool.false_eq_true, if_false]
+  split <;> simp [noClient_cons, Tok.notClient, hl', hc]
+
+theorem flowDescription_placeholder (client phantom : Addr) (hp : phantom.role ≠ .client) :
+    noClient (flowDescription false client phantom) = true := by
+  have : (phantom.role != Role.client) = true := by simpa using hp
+  simp [flowDescription, noClient, Tok.notClient, this]
+
+theorem flowDescription_logging (client phantom : Addr) (hc : client.role = .client) :
+    noClient (flowDescription true client phantom) = false := by
+  simp [flowDescription, noClient, Tok.notClient, hc]
+
+theorem tunnelSummary_noClient (t : Tunnel) (hp : t.phantom.role ≠ .client) :
+    noClient (tunnelSummary t) = true := by
+  have hp' : (t.phantom.role != Role.client) = true := by simpa using hp
+  have h1 := noClient_of_noAddr _ (statText_noAddr t.dialErr)
+  have h2 := noClient_of_noAddr _ (statText_noAddr t.covertErr)
+  have h3 := noClient_of_noAddr _ (statText_noAddr t.clientErr)
+  simp [tunnelSummary, noClient_append, noClient_cons, Tok.notClient, h1, h2, h3, hp']
+
+theorem digests_noClient (r : RegInfo) (hp : r.phantom.role ≠ .client) (hc : r.covert.role ≠ .client) :
+    noClient (regDigest r) = true ∧ noClient (expireRecord r) = true ∧ noClient (droppingRegLine r) = true := by
+  have hp' : (r.phantom.role != Role.client) = true := by simpa using hp
+  have hc' : (r.covert.role != Role.client) = true := by simpa using hc
+  simp [regDigest, expireRecord, droppingRegLine, noClient, Tok.notClient, hp', hc']
+
 end CJ.LogTaint
